@@ -165,7 +165,7 @@ SHAPES = {
     "document": ["element", "element-simple", "element-named-type", "no-parts"] + (["type-complex"] if CROSS_PAIRINGS else []),
     "rpc": ["string", "two-parts", "complex", "enum", "restricted", "no-parts"] + (["element"] if CROSS_PAIRINGS else []),
 }
-HEADERS = ["none", "own-message", "same-message", "own-message-after-body", "in-and-out"]
+HEADERS = ["none", "own-message", "same-message", "own-message-after-body", "in-and-out", "two-headers", "one-of-two-parts"]
 FAULTS = ["none", "one", "two"]
 PLACEMENTS = ["inline", "xs-import", "wsdl-import-xsd", "wsdl-import-wsdl", "two-inline", "wsdl-import-wsdl-split"]
 NS_MODES = ["distinct", "same"]
@@ -332,6 +332,14 @@ def build(*, n_ops=1, style="document", style_on="binding", shapes=None, header=
             op0.input.message.parts.append(Part("hdr", element=hdr))
             op0.input.body_parts = body_names
             op0.input.headers.append(HeaderBind(op0.input.message, "hdr"))
+        elif header in ("two-headers", "one-of-two-parts"):
+            # a header message with two parts, the name of one being the beginning of the other's: both bound by two soap:header
+            # elements, or only the longer-named one bound
+            hdr2 = elem("HdrId", CType(None, [Field("sid", "string")]))
+            hm = msg("HdrMsg", [Part("hdr", element=hdr), Part("hdrId", element=hdr2)])
+            if header == "two-headers":
+                op0.input.headers.append(HeaderBind(hm, "hdr"))
+            op0.input.headers.append(HeaderBind(hm, "hdrId"))
         else:
             hm = msg("HdrMsg", [Part("hdr", element=hdr)])
             op0.input.headers.append(HeaderBind(hm, "hdr"))
